@@ -208,8 +208,9 @@ class Ctx:
                     elif line.startswith("Axioms:"):
                         cur = []
                         blocks.append(cur)
-                    elif cur is not None and re.match(r"^[A-Za-z_][\w.']*\s*:", line):
-                        cur.append(line.split(":")[0].strip())
+                    elif cur is not None and re.match(r"^[A-Za-z_][\w.']*", line):
+                        # an axiom entry starts in column 0 with its (qualified) name; its type may wrap
+                        cur.append(re.match(r"^[A-Za-z_][\w.']*", line).group(0))
             for t in thms:
                 ax = None
                 if ok and t in pas and len(blocks) == len(pas):
